@@ -377,7 +377,8 @@ def setup():
     with Lock():
         rc, out = sh([sys.executable, os.path.join(VERIF, "extract", "extract.py")])
         print(out.strip()[:300])
-        rc1, out = sh(["lake", "build", "XotModel", "xotmodel"], cwd=LEAN, timeout=6000)
+        targets = ["XotModel", "xotmodel"] + [f"XotModel.Props.{p}" for p in sorted(PROPS)]
+        rc1, out = sh(["lake", "build"] + targets, cwd=LEAN, timeout=6000)
         print(out[-1500:])
         cb = cargo_build()
         print(cb["log"][-600:])
